@@ -1708,6 +1708,46 @@ func @F() int {
 }
 GEN(int) @G() { YIELD(@F()); RETURN }`, Drives: []Drive{fn("int", "@F", "")}},
 
+	{Name: "EtaFuncVariableWrittenElsewhere", Props: []string{"C13", "C07"}, Src: `
+// the function variable is written in ANOTHER function than the one the closure is created in: an outer
+// function, a sibling closure, after a yield (another thunk of the generated code), through a parameter
+func @inc(x int) int { return x + 1 }
+func @dbl(x int) int { return 2 * x }
+func @Plain() int {
+	step := @inc
+	var call func(int) int
+	setup := func() { call = func(x int) int { return step(x) } }
+	setup()
+	a := call(10)
+	step = @dbl
+	return 100*a + call(10)
+}
+func @Sibling() int {
+	step := @inc
+	call := func(x int) int { return step(x) }
+	swap := func() { step = @dbl }
+	a := call(10)
+	swap()
+	return 100*a + call(10)
+}
+func @Param(step func(int) int) int {
+	call := func(x int) int { return step(x) }
+	a := call(10)
+	func() { step = @dbl }()
+	return 100*a + call(10)
+}
+GEN(int) @Gen(n int) {
+	op := @inc
+	var fs []func(int) int
+	for i := 0; i < n; i++ {
+		fs = append(fs, func(x int) int { return op(x) })
+		YIELD(fs[i](10))
+	}
+	op = @dbl
+	for _, f := range fs { YIELD(f(10)) }
+	RETURN
+}`, Drives: []Drive{fn("int", "@Plain", ""), fn("int", "@Sibling", ""), fn("int", "@Param", "@inc"), gen("int", "@Gen", "2")}},
+
 	{Name: "EtaBuiltin", Props: []string{"C13", "C11", "C07"}, Src: `
 func @F(s string) int {
 	f := func(s string) int { return len(s) }
@@ -1762,6 +1802,22 @@ GEN(int) @G(n int) {
 	YIELD(t)
 	RETURN
 }`, Drives: []Drive{gen("int", "@G", "5")}},
+
+	{Name: "IfInitYieldTrivialBranches", Props: []string{"C12"}, MayReject: true, Src: `
+// the ONLY yield of the if statement is its initialiser: no branch yields (else-less, with else, in a loop)
+GEN(int) @G(n int) {
+	for i := n; i >= 0; i-- {
+		if YIELD(i); i%2 == 0 { vm.E("even", i) }
+	}
+	RETURN
+}`, Drives: []Drive{gen("int", "@G", "4")}},
+
+	{Name: "IfInitYieldTrivialElse", Props: []string{"C12"}, MayReject: true, Src: `
+GEN(int) @G(n int) {
+	if YIELD(n); n > 0 { vm.E("pos") } else { vm.E("nonpos") }
+	YIELD(9)
+	RETURN
+}`, Drives: []Drive{gen("int", "@G", "1"), gen("int", "@G", "0")}},
 
 	{Name: "RangePointerToArray", Props: []string{"C12", "C04"}, MayReject: true, Src: `
 GEN(int) @G() {
